@@ -1,0 +1,22 @@
+//go:build verif
+
+package coreutils
+
+// Assumed contracts on dependencies (go.sia.tech/core, std-lib), shared by the
+// contract files of all packages. Read by /verif/gocv; comments only.
+//
+// "pure": a deterministic function of its arguments, otherwise uninterpreted
+// (assumptions A1/A2 of /verif/DESIGN.md). Nothing here is proved.
+//
+//@ extern (*types.Transaction).ID pure
+//@ extern (*types.V2Transaction).ID pure
+//@ extern (*types.Block).ID pure
+//@ extern (types.BlockHeader).ID pure
+//@ extern (*types.Block).Header pure
+//@ extern (*types.Transaction).MerkleLeafHash pure
+//@ extern (*types.V2Transaction).MerkleLeafHash pure
+//
+// Deep copies keep the value (here: the id) and share no memory with the original.
+//@ extern (*types.V2Transaction).DeepCopy
+//@   assigns nothing
+//@   ensures result.ID() == txn.ID()
